@@ -121,7 +121,8 @@ class CLCKGen:
 			payload = "IND CLOCK %u\0" % self.clck_src
 
 			# Send indication to all UDP links
-			for link in self.clck_links:
+			# NOTE: the list may be changed by another thread (POWERON / POWEROFF)
+			for link in list(self.clck_links):
 				link.send(payload)
 
 			# Debug print
